@@ -8,6 +8,7 @@ import (
 	"fmt"
 	"math/rand"
 	"regexp"
+	"strconv"
 	"strings"
 )
 
@@ -73,6 +74,7 @@ func (p sessProp) Oracle(inp interface{}, obs Sx) (string, string) {
 	prevID, prevInb, prevJid := "", int64(0), ""
 	smEnable := in.SMEnable
 	expInb := int64(0) // stanzas the SERVER pushed on the current stream-managed session (independent of the client's own counter)
+	expID := ""        // id of the last <enabled/> that completed a negotiation; "" once a resumption with it was not confirmed (scenario-derived, not read from the client)
 	for ci, co := range obs.L {
 		reqs, res, snap := co.L[0].L, co.L[1], co.L[2]
 		ok := res.L[0].Z == 0
@@ -92,6 +94,9 @@ func (p sessProp) Oracle(inp interface{}, obs Sx) (string, string) {
 				id := string(bytesOf(rq.L[0].L[1]))
 				if id == "" || id != prevID {
 					return fmt.Sprintf("conn %d: <resume previd=%q/> but the id held from the last <enabled/> is %q", ci, id, prevID), "resume-id"
+				}
+				if id != expID {
+					return fmt.Sprintf("conn %d: <resume previd=%q/> but the only id still valid (last <enabled/>, not refused or mismatched since) is %q", ci, id, expID), "resume-stale-id"
 				}
 				if rq.L[0].L[2].Z != prevInb {
 					return fmt.Sprintf("conn %d: <resume h=%d/> but the session state says %d stanzas were received", ci, rq.L[0].L[2].Z, prevInb), "resume-h"
@@ -115,8 +120,16 @@ func (p sessProp) Oracle(inp interface{}, obs Sx) (string, string) {
 		}
 		// ---- C03: success iff the script completes (independent recogniser)
 		want, enabledRes := scriptCompletes(in, c, prevID, smEnable)
-		if want && enabledRes != "" && enabledRes != "true" {
-			smEnable = false
+		if sawResume && resumeReply(c, expID) != "resumed-same" {
+			expID = "" // refused, mismatched, unexpected, cut: that id must never be presented again
+		}
+		if want && enabledRes != "" {
+			expID = enabledIDOf(c)
+		}
+		if want && enabledRes != "" {
+			if granted, err := strconv.ParseBool(enabledRes); err != nil || !granted {
+				smEnable = false // the server did not grant resumption: the client stops asking for stream management
+			}
 		}
 		if ok != want {
 			return fmt.Sprintf("conn %d: Connect returned ok=%v but the server script completes the mandatory steps: %v", ci, ok, want), fmt.Sprintf("success-mismatch-%v", ok)
@@ -195,6 +208,19 @@ func min64(a int64, b int64) int64 {
 		return a
 	}
 	return b
+}
+
+// enabledIDOf: the id of the last <enabled/> in the script.
+func enabledIDOf(c sessConn) string {
+	id := ""
+	for _, g := range c.Groups {
+		for _, it := range g {
+			if it.T == "enabled" {
+				id = it.ID
+			}
+		}
+	}
+	return id
 }
 
 // resumeReply: the first item of the group following the post-auth features.
@@ -412,6 +438,18 @@ func mutate(groups [][]sItem, gi, idx int, rep sItem) [][]sItem {
 	return out
 }
 
+// mutateKeep: replace one item but keep the later groups: the server goes on
+// answering as if nothing had happened (e.g. RFC 6120 6.4.5 lets a client retry after a
+// SASL <failure/>: the stream stays open).
+func mutateKeep(groups [][]sItem, gi, idx int, rep sItem) [][]sItem {
+	out := make([][]sItem, len(groups))
+	for k := range groups {
+		out[k] = append([]sItem{}, groups[k]...)
+	}
+	out[gi][idx] = rep
+	return out
+}
+
 // firstConnWithSM: a connection that leaves the client with resumable state heldID.
 func firstConnWithSM(in sessIn, r *rand.Rand, heldID string, traffic int) sessConn {
 	sh := shape{tlsOffer: 0, sess: 0, smOffer: true}
@@ -473,7 +511,72 @@ func genC03(r *rand.Rand, tier string) []interface{} {
 			}
 		}
 	}
-	// 3. dial refused
+	// 3. the server keeps cooperating after the deviating reply; and the attempt AFTER a
+	//    failed one, on the same Client (state left behind by the failure must not matter)
+	for round := 0; round < 2*rounds; round++ {
+		in0 := randClient(r)
+		sh := randShape(r, in0)
+		base, labels := goodConn(in0, sh, "", "", "sm-k", "true")
+		for gi := range base {
+			for idx := range base[gi] {
+				alpha := replyAlphabet("")
+				rep := alpha[r.Intn(len(alpha))]
+				in := in0
+				in.Tag = "keep:" + labels[gi]
+				in.Conns = []sessConn{{Groups: mutateKeep(base, gi, idx, rep)}}
+				out = append(out, in)
+				in2 := in0
+				in2.Tag = "after-failure:" + labels[gi]
+				good, _ := goodConn(in0, randShape(r, in0), "", "", "sm-g", "true")
+				in2.Conns = []sessConn{{Groups: mutate(base, gi, idx, rep)}, {Groups: good}}
+				out = append(out, in2)
+			}
+		}
+	}
+	// 4. the mechanism list differs between the streams of one connection and between connections
+	for k := 0; k < 6*rounds; k++ {
+		in := randClient(r)
+		in.Tag = "mechs-change"
+		sh := randShape(r, in)
+		if sh.tlsOffer == 0 {
+			sh.tlsOffer = 1
+		}
+		g, _ := goodConn(in, sh, "", "", "sm-m", "true")
+		other := []string{"SCRAM-SHA-1", "DIGEST-MD5"}
+		mine := []string{"SCRAM-SHA-1", in.mechs()[0]}
+		variant := k % 3
+		for gi := range g {
+			for idx := range g[gi] {
+				if g[gi][idx].T == "features" && g[gi][idx].Mechs != nil {
+					switch {
+					case variant == 0 && g[gi][idx].TLS != 0: // offered before TLS only
+						g[gi][idx].Mechs = mine
+					case variant == 0:
+						g[gi][idx].Mechs = other
+					case variant == 1 && g[gi][idx].TLS != 0: // offered after TLS only
+						g[gi][idx].Mechs = other
+					case variant == 1:
+						g[gi][idx].Mechs = mine
+					}
+				}
+			}
+		}
+		conns := []sessConn{{Groups: g}}
+		if variant == 2 { // second connection of the same client: the server no longer offers the mechanism
+			g2, _ := goodConn(in, sh, "", "", "sm-m2", "true")
+			for gi := range g2 {
+				for idx := range g2[gi] {
+					if g2[gi][idx].T == "features" && g2[gi][idx].Mechs != nil {
+						g2[gi][idx].Mechs = other
+					}
+				}
+			}
+			conns = append(conns, sessConn{Groups: g2})
+		}
+		in.Conns = conns
+		out = append(out, in)
+	}
+	// 5. dial refused
 	in := randClient(r)
 	g, _ := goodConn(in, shape{tlsOffer: 1}, "", "", "x", "true")
 	in.Conns = []sessConn{{NoDial: true}, {Groups: g}}
@@ -501,7 +604,8 @@ func genC04(r *rand.Rand, tier string) []interface{} {
 								if offer == 0 && reply != "proceed" {
 									continue
 								}
-								if tier != "thorough" && r.Intn(3) != 0 {
+								critical := reply == "proceed" && offer > 0 && rep == 0 // every certificate kind x TLS config x Insecure, always
+								if tier != "thorough" && !critical && r.Intn(3) != 0 {
 									continue
 								}
 								for _, hist := range []int{0, 1, 2} {
@@ -549,7 +653,7 @@ func genC11(r *rand.Rand, tier string) []interface{} {
 	if tier == "thorough" {
 		reps = 8
 	}
-	replies := []sItem{{T: "resumed", ID: "@held"}, {T: "resumed", ID: "other-id"}, {T: "failed"}, {T: "failed", Cond: "item-not-found"},
+	replies := []sItem{{T: "resumed", ID: "@held"}, {T: "resumed", ID: "other-id"}, {T: "failed"}, {T: "failed"}, {T: "failed", Cond: "item-not-found"},
 		{T: "message", N: 1}, {T: "iq", Typ: "result", ID: "1", Pl: "bind", Jid: "user@" + srvDomain + "/z"}, {T: "enabled", ID: "zz", Res: "true"},
 		{T: "success"}, {T: "serr"}, {T: "close"}, {T: "unknown"}, {T: "malformed"}, {T: "eof"}, {T: "r"}}
 	for rep := 0; rep < reps; rep++ {
@@ -564,6 +668,9 @@ func genC11(r *rand.Rand, tier string) []interface{} {
 						in.Resource = "res"
 					}
 					held := fmt.Sprintf("held-%d", r.Intn(1000))
+					if r.Intn(4) == 0 {
+						held = []string{"a&b", "it's", "x<y>", "q\"uote", "é漢"}[r.Intn(5)] + fmt.Sprint(r.Intn(100))
+					}
 					conns := []sessConn{firstConnWithSM(in, r, held, r.Intn(6))}
 					cur := held
 					for step, rr := range []sItem{r1, r2} {
@@ -578,6 +685,11 @@ func genC11(r *rand.Rand, tier string) []interface{} {
 							if l == "resume" {
 								if it.T == "failed" {
 									g[gi] = []sItem{it} // refusal: the rest of the script (bind, ...) stays
+									if r.Intn(3) == 0 && gi+1 < len(g) {
+										// ... but the fallback bind then fails (iq error / connection cut)
+										g = mutate(g, gi+1, 0, []sItem{{T: "iq", Typ: "error", ID: "1", Pl: "bind", Err: true}, {T: "eof"}}[r.Intn(2)])
+										newID = ""
+									}
 								} else {
 									g = mutate(g, gi, 0, it)
 								}
@@ -593,7 +705,7 @@ func genC11(r *rand.Rand, tier string) []interface{} {
 							}
 						case it.T == "resumed" && it.ID == cur:
 						case it.T == "failed":
-							cur = newID
+							cur = newID // "" when the fallback bind failed: nothing to resume next time
 						default:
 							cur = ""
 						}
@@ -629,6 +741,14 @@ func genC09sess(r *rand.Rand, tier string) []interface{} {
 		g, _ := goodConn(in, sh, "", "", held, res)
 		conns := []sessConn{{Groups: g, Traffic: r.Intn(9)}}
 		for k := r.Intn(4); k > 0; k-- {
+			if r.Intn(3) == 0 {
+				// resumption refused: bind, a new <enabled/> with a new id, counting starts again
+				newHeld := fmt.Sprintf("%s-n%d", held, k)
+				g2, _ := goodConn(in, shape{smOffer: true}, held, "failed", newHeld, "true")
+				conns = append(conns, sessConn{Groups: g2, Traffic: r.Intn(7)})
+				held = newHeld
+				continue
+			}
 			g2, _ := goodConn(in, shape{smOffer: true}, held, "resumed", "unused", "true")
 			conns = append(conns, sessConn{Groups: g2, Traffic: r.Intn(7)})
 		}
